@@ -13,6 +13,7 @@ import (
 
 // State is the symbolic state at one program point.
 type State struct {
+	allocLow Term // lowest allocation id handed out so far on this path
 	pc     Term
 	cells  map[*Cell]Value
 	heap   map[string]Term // array name -> current version
@@ -28,7 +29,7 @@ type deferred struct {
 }
 
 func (s *State) clone() *State {
-	n := &State{pc: s.pc, cells: make(map[*Cell]Value, len(s.cells)), heap: make(map[string]Term, len(s.heap)),
+	n := &State{allocLow: s.allocLow, pc: s.pc, cells: make(map[*Cell]Value, len(s.cells)), heap: make(map[string]Term, len(s.heap)),
 		ghost: make(map[string]Value, len(s.ghost)), binds: make(map[string]Value, len(s.binds))}
 	for k, v := range s.cells {
 		n.cells[k] = v
@@ -115,14 +116,7 @@ type loopInfo struct {
 func (x *Exec) note(s string) { x.notes[s]++ }
 
 func (x *Exec) typeID(t types.Type) Term {
-	k := types.TypeString(t, nil)
-	if id, ok := x.typeIDs[k]; ok {
-		return IntLit(int64(id))
-	}
-	id := len(x.typeIDs) + 1
-	x.typeIDs[k] = id
-	x.typeOf[id] = t
-	return IntLit(int64(id))
+	return IntLit(int64(x.smt.typeIDOf(t)))
 }
 
 // ---------- heap arrays ----------
@@ -181,7 +175,11 @@ func (x *Exec) havocObject(st *State, ref Term, elem types.Type) {
 		if strings.HasPrefix(name, "MF.") {
 			sort := x.arrays[name]
 			inner := strings.TrimSuffix(strings.TrimPrefix(sort, "(Array Ref "), ")")
-			st.heap[name] = x.smt.def(name, sort, Store(st.heap[name], ref, x.smt.fresh("mfh", inner)))
+			fv := x.smt.fresh("mfh", inner)
+			if inner == SRef {
+				x.smt.assume(Implies(st.pc, "(>= (rootid "+fv+") "+st.allocLow+")"))
+			}
+			st.heap[name] = x.smt.def(name, sort, Store(st.heap[name], ref, fv))
 		}
 	}
 	if elem != nil {
@@ -208,6 +206,9 @@ func fieldArrayName(s types.Type, f *types.Var) string {
 func (x *Exec) fldRef(s types.Type, i int, base Term) Term {
 	st := structOf(s)
 	id := x.refKind("fld." + typeName(s) + "." + st.Field(i).Name())
+	if st.Field(i).Embedded() {
+		embeddedFieldIDs[IntLit(int64(id))] = true
+	}
 	return "(fld " + base + " " + IntLit(int64(id)) + ")"
 }
 
@@ -217,11 +218,11 @@ func (x *Exec) elemRef(t types.Type, arr, idx Term) Term {
 
 func (x *Exec) refKind(name string) int {
 	k := "kind:" + name
-	if id, ok := x.typeIDs[k]; ok {
+	if id, ok := x.smt.typeIDs[k]; ok {
 		return id
 	}
-	id := len(x.typeIDs) + 1
-	x.typeIDs[k] = id
+	id := len(x.smt.typeIDs) + 1
+	x.smt.typeIDs[k] = id
 	return id
 }
 
